@@ -428,7 +428,7 @@ def _(e, c, a):
     lk = un(a[0]); return lk.f[0].v if 'into_inner' in c else Ref(lk.f[0])
 
 
-@model(r'<.*(Future|Pin<.*>) as Future>::poll$|<.*as IntoFuture>::into_future$')
+@model(r'<.*(Future|Pin<.*>) as Future>::poll$|<.*as IntoFuture>::into_future$| as (futures::)?(\w+::)*Future>::poll$')
 def _(e, c, a):
     if 'into_future' in c: return a[0]
     return e.poll(a[0])
@@ -640,10 +640,39 @@ def _(e, c, a):
 def _(e, c, a): return False
 
 
-@model(r'<(futures::)?(futures_channel::)?oneshot::Receiver<.*> as Future>::poll$', front=True)
+# ---------------------------------------------------------------- zstd (C library behind FFI): an injective pair
+# encode_all(x) = MAGIC ++ x  (a frame starting with the zstd magic number), decode_all(MAGIC ++ x) = x and every byte
+# string that does not start with the magic number is rejected.  This is one concrete instance of the contract
+# "decode(encode(x)) = x, decode of a non-image fails"; the real library's own round trip is trusted (C20 assumptions).
+ZSTD_MAGIC = [0x28, 0xB5, 0x2F, 0xFD]
+
+
+@model(r'zstd::(stream::)?(functions::)?encode_all$|^encode_all$')
 def _(e, c, a):
-    rcv = un(a[0])
-    if isinstance(rcv, Struct) and rcv.name == 'Pin': rcv = un(rcv.f[0].v)
-    ch = rcv.f[0].v.cell
-    if ch.v is None: return Enum('Poll', 1)
-    return Enum('Poll', 0, [Ok(ch.v)])
+    src = deref_vec(a[0])
+    e.events.append(('zstd-encode', len(src.cells)))
+    return Ok(RVec([Cell(b) for b in ZSTD_MAGIC] + [Cell(x.v) for x in src.cells]))
+
+
+@model(r'zstd::(stream::)?(functions::)?decode_all$|^decode_all$')
+def _(e, c, a):
+    src = deref_vec(a[0])
+    e.events.append(('zstd-decode', len(src.cells)))
+    if len(src.cells) < 4: return Err(Opaque('io::Error', 'zstd: not a frame'))
+    ok = zand([veq(src.cells[i].v, ZSTD_MAGIC[i]) for i in range(4)])
+    if e.branch(ok) if is_sym(ok) else ok:
+        return Ok(RVec([Cell(x.v) for x in src.cells[4:]]))
+    return Err(Opaque('io::Error', 'zstd: not a frame'))
+
+
+# ---------------------------------------------------------------- task::Poll combinators
+@model(r'^Poll::map$|task::Poll::map$')
+def _(e, c, a):
+    p = un(a[0])
+    if p.variant == 1: return Enum('Poll', 1)
+    return Enum('Poll', 0, [e.call_fn_value(a[1], [p.f[0].v])])
+
+
+@model(r'^Poll::(is_ready|is_pending)$')
+def _(e, c, a):
+    p = un(a[0]); return (p.variant == 0) == c.rstrip().endswith('is_ready')
